@@ -433,6 +433,25 @@ func apiSnapshot(d []byte) string {
 			fmt.Fprintf(&sb, "%s|", canon(rjson.StdLibCompatibleSlice(a)))
 		}
 	}
+	// the same entry points with no Buffer at all, and the small accessors
+	p, err = rjson.SkipValue(d, nil)
+	fmt.Fprintf(&sb, "%d %v|", p, err == nil)
+	p, err = rjson.SkipValueFast(d, nil)
+	fmt.Fprintf(&sb, "%d %v|", p, err == nil)
+	fmt.Fprintf(&sb, "%v|", rjson.Valid(d, nil))
+	p, err = rjson.HandleArrayValues(d, &quietArr{mode: 1}, nil)
+	fmt.Fprintf(&sb, "%d %v|", p, err == nil)
+	p, err = rjson.HandleObjectValues(d, &quietObj{mode: 1}, nil)
+	fmt.Fprintf(&sb, "%d %v|", p, err == nil)
+	for _, k := range []int{0, 3, 11, 12, 77, 200, 255, len(d) % 256} {
+		fmt.Fprintf(&sb, "%s|", rjson.TokenType(k).String())
+	}
+	bb, p, err := rjson.ReadStringBytes(d, make([]byte, 2, 8))
+	fmt.Fprintf(&sb, "%q %d %v|", bb, p, err == nil)
+	var i32 int32
+	p, err = rjson.DecodeInt32(d, &i32)
+	fmt.Fprintf(&sb, "%d %d %v|", i32, p, err == nil)
+	fmt.Fprintf(&sb, "%q|", rjson.StdLibCompatibleStringBytes(d, nil))
 	fmt.Fprintf(&sb, "%q|", rjson.StdLibCompatibleString(string(d)))
 	uc, p, err := rjson.UnescapeStringContent(d, nil)
 	fmt.Fprintf(&sb, "%q %d %v", uc, p, err == nil)
@@ -473,6 +492,7 @@ func cmdRace(args []string) {
 	var wg sync.WaitGroup
 	var mu sync.Mutex
 	mism := 0
+	calls := 0
 	shared := &rjson.ValueReader{} // NOT shared across goroutines: each worker gets its own below
 	_ = shared
 	for w := 0; w < workers; w++ {
@@ -483,6 +503,9 @@ func cmdRace(args []string) {
 			for k := 0; k < len(docs); k++ {
 				i := (k*7 + w*13) % len(docs)
 				got := apiSnapshot(docs[i])
+				mu.Lock()
+				calls += strings.Count(got, "|") + 3 // API calls in the snapshot + the two ReadValue calls below
+				mu.Unlock()
 				v, _, _ := rd.ReadValue(docs[i])
 				v2, _, _ := rjson.ReadValue(docs[i])
 				if got != seq[i] || !reflect.DeepEqual(v, v2) {
@@ -503,7 +526,7 @@ func cmdRace(args []string) {
 			mod++
 		}
 	}
-	fmt.Printf("RACE-SUMMARY docs=%d workers=%d calls=%d mismatches=%d inputs_modified=%d\n", len(docs), workers, workers*len(docs)*24, mism, mod)
+	fmt.Printf("RACE-SUMMARY docs=%d workers=%d calls=%d mismatches=%d inputs_modified=%d\n", len(docs), workers, calls, mism, mod)
 	if mism > 0 || mod > 0 {
 		os.Exit(3)
 	}
